@@ -408,6 +408,8 @@ def call_builtin(self, name, pos, kw, node, fr):
                 if a.kind in ('builtin', 'ext'):
                     names.add(a.args[0].split('.')[-1])
             k = T.SYMKIND[xa.args[0]]
+            if k.startswith('object:'):
+                return TRUE if k.split(':', 1)[1] in names else FALSE
             want = {'array': {'list', 'ndarray'}, 'scalar': {'int', 'float'}, 'callable': set()}[k]
             return TRUE if (names & want) else FALSE
         if xa is not None and xa.kind == 'closure':
